@@ -13,7 +13,7 @@ from ..runs_common import InjectedFault
 
 ID = "C12"
 LEVEL = "fault_enumeration"
-BUDGET = {"quick": 64, "thorough": 1200}
+BUDGET = {"quick": 64, "thorough": 4500}
 SHARDS = {"quick": 8, "thorough": 16}
 SHRINK = {"quick": False, "thorough": False}
 RULE = (
